@@ -105,3 +105,32 @@ pub mod trace {
         });
     }
 }
+
+/// Plain-vector copy of the assembled KKT matrix and its index maps
+#[derive(Clone, Debug)]
+pub struct KktSnapshot {
+    pub m: usize,
+    pub n: usize,
+    pub p: usize,
+    pub is_triu: bool,
+    pub KKT: CscMatrix<f64>,
+    pub dsigns: Vec<i8>,
+    pub map_P: Vec<usize>,
+    pub map_A: Vec<usize>,
+    pub map_Hsblocks: Vec<usize>,
+    pub map_diagP: Vec<usize>,
+    pub map_diag_full: Vec<usize>,
+    /// per sparse-expandable cone: its index vectors (SOC: u, v, D ; GenPow: p, q, r, D)
+    pub sparse_maps: Vec<Vec<Vec<usize>>>,
+    pub diagonal_regularizer: f64,
+}
+
+/// assemble the KKT matrix for (P, A, cones) in the requested triangle without building a solver
+pub fn assemble_kkt(
+    P: &CscMatrix<f64>,
+    A: &CscMatrix<f64>,
+    cones: &CompositeCone<f64>,
+    triu: bool,
+) -> KktSnapshot {
+    crate::solver::core::kktsolvers::direct::verif_assemble(P, A, cones, triu)
+}
